@@ -179,6 +179,15 @@ def run_property(prop, fn, level, tier, seed, checker_cmd, explanation, assumpti
         "tree": extract.tree_hash(),
         "repo": extract.REPO,
     }
+    try:
+        from . import vg as _vg
+        cov["bodies_evaluated"] = len(_vg.COVERED)
+        if os.environ.get("TF_COVERAGE"):
+            with open(os.environ["TF_COVERAGE"], "a") as fh:
+                for i in sorted(_vg.COVERED):
+                    fh.write("%s\t%s\n" % (prop, i))
+    except Exception:
+        pass
     ev = {"property_id": prop, "tier": tier, "seed": seed, "level": level, "coverage": cov,
           "assumptions": assumptions, "wall_s": round(time.time() - rep.t0, 3), "violations": n_viol}
     os.makedirs(os.path.join(OUT, "evidence"), exist_ok=True)
